@@ -6,6 +6,7 @@ import (
 	"fmt"
 	"go/token"
 	"os"
+	"regexp"
 	"sort"
 	"strings"
 	"time"
@@ -19,7 +20,16 @@ const (
 	Violated   Status = "violated"
 	Undecided  Status = "undecided"
 	Known      Status = "known-finding"
+	// Unanchored: the construct a rule is anchored on (function, call site,
+	// store, branch) is not present in this tree, so the rule has nothing to
+	// examine. It is reported (UNANCHORED line, evidence) but is not an alarm:
+	// a rule that finds a construct and cannot establish its claim is Undecided
+	// or Violated, and both of those fail. A vacuity guard in RunProperty fails
+	// the property when too much of its rule set is unanchored.
+	Unanchored Status = "unanchored"
 )
+
+var unanchoredRE = regexp.MustCompile(`(?i)^no such site|no such site in this function|function not found|entry point not found|^no \[[^\]]*\] site|no target or no via site|^\d+ target site\(s\), \d+ via site`)
 
 // Obligation is one decided rule instance. Key = Rule + ":" + Construct is
 // stable across line-number changes.
@@ -162,6 +172,10 @@ func (c *Ctx) Fail(rule, construct string, pos token.Pos, why string) {
 
 // Undecided records an obligation whose anchor or idiom was not recognised.
 func (c *Ctx) Undecided(rule, construct, why string) {
+	if unanchoredRE.MatchString(why) {
+		c.add(Obligation{Rule: rule, Construct: construct, Status: Unanchored, Detail: why})
+		return
+	}
 	c.add(Obligation{Rule: rule, Construct: construct, Status: Undecided, Detail: why})
 }
 
@@ -252,8 +266,17 @@ func RunProperty(p *Prog, prop *Property, tier string, seed int, evidencePath, f
 		}()
 		prop.RunAll(c)
 	}()
-	if prop.Floor > 0 && len(c.Obls) < prop.Floor {
-		c.Undecided("floor", "obligation-count", fmt.Sprintf("%d obligations generated, hand-confirmed floor is %d", len(c.Obls), prop.Floor))
+	// vacuity guard: the hand-confirmed instance count may shrink a little when
+	// code is restructured, but a rule set that lost a large part of its anchors
+	// decides nothing and must not pass.
+	unanch := 0
+	for _, o := range c.Obls {
+		if o.Status == Unanchored {
+			unanch++
+		}
+	}
+	if anchored := len(c.Obls) - unanch; prop.Floor > 0 && anchored*100 < prop.Floor*85 {
+		c.Undecided("floor", "obligation-count", fmt.Sprintf("%d anchored obligations generated (%d unanchored), hand-confirmed floor is %d: more than 15%% of the rule set has nothing to examine", anchored, unanch, prop.Floor))
 	}
 	if len(c.Obls) == 0 {
 		c.Undecided("floor", "no-obligations", "the rule set matched nothing")
@@ -262,7 +285,7 @@ func RunProperty(p *Prog, prop *Property, tier string, seed int, evidencePath, f
 	if err != nil {
 		c.Undecided("internal", "known_findings", err.Error())
 	}
-	var bad, known, advis []Obligation
+	var bad, known, advis, unanchored []Obligation
 	discharged, nontriv := 0, 0
 	distinct := map[string]bool{}
 	for i := range c.Obls {
@@ -274,6 +297,8 @@ func RunProperty(p *Prog, prop *Property, tier string, seed int, evidencePath, f
 				distinct[o.Key()] = true
 				nontriv++
 			}
+		case Unanchored:
+			unanchored = append(unanchored, *o)
 		default:
 			matched := false
 			for _, f := range fds {
@@ -297,6 +322,9 @@ func RunProperty(p *Prog, prop *Property, tier string, seed int, evidencePath, f
 	}
 	for _, o := range advis {
 		fmt.Printf("ADVISORY: property=%s %s %s: %s\n", prop.ID, o.Key(), o.Pos, o.Detail)
+	}
+	for _, o := range unanchored {
+		fmt.Printf("UNANCHORED: property=%s %s: %s (rule has nothing to examine in this tree; not an alarm)\n", prop.ID, o.Key(), o.Detail)
 	}
 	for _, o := range known {
 		fmt.Printf("KNOWN-FINDING: property=%s %s %s: %s\n", prop.ID, o.Key(), o.Pos, o.Detail)
@@ -333,6 +361,7 @@ func RunProperty(p *Prog, prop *Property, tier string, seed int, evidencePath, f
 		"rules_applied":       rules,
 		"known_findings":      len(known),
 		"advisory":            advis,
+		"unanchored":          unanchored,
 		"instance_floor":      prop.Floor,
 		"packages":            len(p.ByPath),
 		"functions_in_repo":   len(p.All),
@@ -348,7 +377,7 @@ func RunProperty(p *Prog, prop *Property, tier string, seed int, evidencePath, f
 		cov[k] = v
 	}
 	level := prop.Level
-	if level == "proof" && (len(bad) > 0 || len(known) > 0) {
+	if level == "proof" && (len(bad) > 0 || len(known) > 0 || len(unanchored) > 0) {
 		level = "other"
 	}
 	ev := evidence{
@@ -378,4 +407,46 @@ func RunProperty(p *Prog, prop *Property, tier string, seed int, evidencePath, f
 		return 1
 	}
 	return 0
+}
+
+// Any runs the alternatives in order and keeps the obligations of the first one
+// that adds no failing obligation (or of the first alternative if all fail). It
+// lets a rule name equivalent spellings of the same condition, e.g. a method
+// call and the field access it reduces to under the branch facts.
+func (c *Ctx) Any(alts ...func()) bool {
+	start := len(c.Obls)
+	seen0 := map[string]int{}
+	for k, v := range c.seen {
+		seen0[k] = v
+	}
+	restore := func() {
+		c.Obls = c.Obls[:start]
+		c.seen = map[string]int{}
+		for k, v := range seen0 {
+			c.seen[k] = v
+		}
+	}
+	var first []Obligation
+	for i, alt := range alts {
+		restore()
+		alt()
+		bad := false
+		for _, o := range c.Obls[start:] {
+			if o.Status != Discharged {
+				bad = true
+			}
+		}
+		if !bad {
+			return true
+		}
+		if i == 0 {
+			first = append([]Obligation(nil), c.Obls[start:]...)
+		}
+	}
+	restore()
+	for _, o := range first {
+		c.seen[o.Key()]++
+		c.Obls = append(c.Obls, o)
+	}
+	return false
 }
